@@ -45,7 +45,9 @@ def build(spec):
         objs = []
         for par, base, law, mem, read in ops:
             o = p.new_operator([objs[i] for i in par] if par else None)
-            o.add_segment(Segment(baseline_cpu_seconds=base, cpu_scaling=law, memory_gb=mem, storage_read_gb=read))
+            # a third of the segments are built from the library's scaling *function* rather than from its name: the trace must name the law all the same
+            how = Segment.SCALING_FUNCS[law] if (len(law) + int(read * 4)) % 3 == 0 else law
+            o.add_segment(Segment(baseline_cpu_seconds=base, cpu_scaling=how, memory_gb=mem, storage_read_gb=read))
             objs.append(o)
         out.append((tick, p, objs))
     return out
@@ -237,6 +239,19 @@ def malformed(ctx, drv, rng):
             raised = None
         except Exception as e:
             raised = type(e).__name__
+        # the same file through the replay path (`CSVWorkloadReader.get_workload`, what `eudoxia run -w` uses): a file that is refused when read is refused
+        # when replayed -- not silently cut short
+        try:
+            from eudoxia.workload.csv_io import CSVWorkloadReader
+            wl = CSVWorkloadReader(io.StringIO(text)).get_workload(4)
+            delivered = sum(len(wl.run_one_tick()) for _ in range(20))
+            replay_raised = None
+        except Exception as e:
+            replay_raised, delivered = type(e).__name__, None
+        if raised is not None and replay_raised is None:
+            viol(ctx, "malformed-accepted", f"a file with {name} is refused by the reader but replays without an error ({delivered} pipeline(s) delivered, "
+                                             f"the rest silently missing)", {"file": text})
+            continue
         m = drv.send("csv-read " + json.dumps(canon_rows(text)))
         ctx.sit("malformed_files")
         model_refuses = "error" in m
